@@ -300,7 +300,11 @@ func (r *run) close(end string) {
 			in = "ab"
 		}
 		for i := 0; i < 5000 && r.read[in] < r.wrote[in]; i++ {
+			before := r.read[in]
 			r.readOnce(in, 8192)
+			if r.read[in] == before {
+				break
+			}
 		}
 	}
 	_ = c.Close()
@@ -482,7 +486,11 @@ func main() {
 			// drain both directions so that "everything written arrives" is observed
 			for _, dir := range []string{"ab", "ba"} {
 				for i := 0; i < 5000 && r.closedBy == "" && r.read[dir] < r.wrote[dir]; i++ {
+					before := r.read[dir]
 					r.readOnce(dir, 8192)
+					if r.read[dir] == before {
+						break // nothing arrived (the line that says so is in the trace): do not hammer a failed connection
+					}
 				}
 			}
 			if r.closedBy == "" {
